@@ -34,7 +34,9 @@ def run(tier, seed):
     from dissect.cstruct.expression import Expression
 
     rep = Report("C10", tier, seed, "other", "./vf check C10 --tier " + tier)
-    rep.add_case_results(run_cases([("contracts.exprs", "make_expr", (w,)) for w in ("tables", "evaluate_exp", "precedence", "rewrite-idempotent")]), "T1")
+    from contracts import exprs as _ex
+
+    rep.add_case_results(run_cases([("contracts.exprs", "make_expr", (w,)) for w in ("tables", "evaluate_exp", "precedence", "rewrite-idempotent")] + _ex.shape_specs(tier)), "T1")
     cs = cstruct()
     cs.load("#define A 8\n#define B 13\n#define u 3\nstruct S { uint8 a; uint32 b; };")
     sizeof = lambda n: len(cs.resolve(n))  # noqa: E731
